@@ -170,17 +170,21 @@ func (r *Require) setIndirect(indirect bool) {
 	}
 
 	// Removing comment.
-	f := strings.TrimSpace(strings.TrimPrefix(line.Suffix[0].Token, string(slashSlash)))
-	if f == "indirect" {
-		// Remove whole comment.
-		line.Suffix = nil
-		return
-	}
+	// What follows a removed "indirect;" prefix can itself read as an
+	// indirect marker ("// indirect; indirect"), so remove until it does not.
+	for isIndirect(line) {
+		f := strings.TrimSpace(strings.TrimPrefix(line.Suffix[0].Token, string(slashSlash)))
+		if f == "indirect" {
+			// Remove whole comment.
+			line.Suffix = nil
+			return
+		}
 
-	// Remove comment prefix.
-	com := &line.Suffix[0]
-	i := strings.Index(com.Token, "indirect;")
-	com.Token = "//" + com.Token[i+len("indirect;"):]
+		// Remove comment prefix.
+		com := &line.Suffix[0]
+		i := strings.Index(com.Token, "indirect;")
+		com.Token = "//" + com.Token[i+len("indirect;"):]
+	}
 }
 
 // isIndirect reports whether line has a "// indirect" comment,
